@@ -3475,6 +3475,15 @@ def c09(ctx):
                       "src": "package a\n\nfunc f(n int) {\n\toldLog(n)\n\treport(n + 1)\n}\n"}, how_))
         todo.append(({"id": "dup2/" + how_, "chain": [dup[1], dup[0], dup[1], dup[0]],
                       "src": "package a\n\nfunc f(n int) {\n\toldLog(n)\n\treport(report(n + 1))\n}\n"}, how_))
+    # a labelled loop matched through "for ...", then changes that spell out the label: what an earlier change rebuilt is
+    # matched by the later ones as if it had been parsed from the printed file
+    lab_src = ("package scan\n\nfunc total(rows [][]int) int {\n\tn := 0\nouter:\n\tfor _, row := range rows {\n\t\tfor _, v := range row {\n"
+               "\t\t\tif v < 0 {\n\t\t\t\tcontinue outer\n\t\t\t}\n\t\t\tn += v\n\t\t}\n\t\tvisit(row)\n\t}\n\treturn n\n}\n\n"
+               "func each(rows [][]int) {\n\tfor i := 0; i < len(rows); i++ {\n\t\tvisit(rows[i])\n\t}\n}\n")
+    lab_chain = ["@@\nvar X expression\n@@\n for ... {\n   ...\n-  visit(X)\n+  inspect(X)\n }\n",
+                 "@@\n@@\n-outer:\n+rows:\n for ... {\n   ...\n }\n", "@@\n@@\n-continue outer\n+continue rows\n"]
+    for how_ in ("flags", "one-file", "list"):
+        todo.append(({"id": "label/" + how_, "chain": lab_chain, "src": lab_src}, how_))
     # a chain with a failing step
     todo.append(({"id": "failstep", "chain": ["@@\nvar x expression\n@@\n-foo(x)\n+bar(x)\n", "@@\nvar x expression\n@@\n-bar(x)\n+baz.x\n"],
                   "src": "package a\n\nfunc f() {\n\tfoo(g(1))\n}\n"}, "flags"))
